@@ -16,6 +16,7 @@ from vf import fits as FT
 from vf.gen import rng_for, daily_weather
 
 ID = "C15"
+TECHNIQUE = 'runtime monitoring: generator-as-oracle: in-family buildings fitted by the real fit, prediction compared with the generating curve (NRMSE, phantom loads) on two weather years; misses attributed by deterministic classifiers from hooked optimiser state'
 LEVEL = "exploration"
 CASE_TIMEOUT = 2400
 RULE = ("generating parameters drawn from the stated family (base load 5-50, slopes 0.3-3 per degree, heating balance 45-58F, cooling balance 64-75F, "
